@@ -180,4 +180,217 @@ theorem exec_mulSame (h : Store) (a b : Nat) (x y : Model) (ha : h[a]? = some x)
       | ok m => simp [Except.map]
     · simp [hl, Except.map]
 
+/-! ### the promoting and subtracting programs -/
+
+theorem get_old (h : Store) (t : Store) (j : Nat) (x : Model) (hj : h[j]? = some x) : (h ++ t)[j]? = some x := by
+  rw [List.getElem?_append_left (lt_of_get h j x hj)]; exact hj
+
+theorem get_new0 (h : Store) (x : Model) (t : Store) : (h ++ x :: t)[h.length]? = some x := by simp
+theorem get_new1 (h : Store) (x y : Model) (t : Store) : (h ++ x :: y :: t)[h.length + 1]? = some y := by
+  rw [List.getElem?_append_right (by omega)]; simp
+
+theorem map_get_set (h : Store) (i : Nat) (r : Except Err Model) (hi : i < h.length) :
+    (match r with | .ok m' => (Except.ok (setAt h i m') : Except Err Store) | .error e => .error e).map (fun h' => h'[i]?) = r.map some := by
+  cases r with
+  | error e => rfl
+  | ok m => simp [Except.map, setAt, hi]
+
+/-- `BQM + BQM` of different vartypes: `qm = from_bqm(self); qm += from_bqm(other)` -/
+theorem exec_addPromoteBoth (h : Store) (a b : Nat) (x y : Model) (ha : h[a]? = some x) (hb : h[b]? = some y)
+    (hx : x.isQM = false) (hy : y.isQM = false) (hd : bqmDiffer x y = true) :
+    (exec h (progAddPromoteBoth a b h.length)).map (fun h' => h'[h.length]?) = (mAdd x y).map some := by
+  have e1 : (h ++ [x.toQM])[b]? = some y := get_old h _ b y hb
+  have e2 : (h ++ [x.toQM] ++ [y.toQM])[h.length]? = some x.toQM := by simp
+  have e3 : (h ++ [x.toQM] ++ [y.toQM])[h.length + 1]? = some y.toQM := by
+    rw [List.append_assoc]; exact get_new1 h _ _ []
+  simp only [progAddPromoteBoth, exec, step, ha, e1, e2, e3]
+  have hm : mAdd x y = qmUpdate x.toQM y.toQM := by simp [mAdd, hx, hy, hd]
+  rw [hm]
+  have hu : upd x.toQM y.toQM = qmUpdate x.toQM y.toQM := by simp [upd, Model.toQM]
+  rw [hu]
+  cases qmUpdate x.toQM y.toQM with
+  | error e => rfl
+  | ok m => simp [exec, Except.map, setAt]
+
+/-- `BQM + QM`: `QuadraticModel.from_bqm(self) + other` -/
+theorem exec_addPromoteLeft (h : Store) (a b : Nat) (x y : Model) (ha : h[a]? = some x) (hb : h[b]? = some y)
+    (hx : x.isQM = false) (hy : y.isQM = true) :
+    (exec h (progAddPromoteLeft a b h.length)).map (fun h' => h'[h.length + 1]?) = (mAdd x y).map some := by
+  have e1 : (h ++ [x.toQM])[h.length]? = some x.toQM := by simp
+  have e2 : (h ++ [x.toQM] ++ [x.toQM])[h.length + 1]? = some x.toQM := by
+    rw [List.append_assoc]; exact get_new1 h _ _ []
+  have e3 : (h ++ [x.toQM] ++ [x.toQM])[b]? = some y := by rw [List.append_assoc]; exact get_old h _ b y hb
+  simp only [progAddPromoteLeft, exec, step, ha, e1, e2, e3]
+  have hm : mAdd x y = qmUpdate x.toQM y := by simp [mAdd, hx, hy]
+  have hu : upd x.toQM y = qmUpdate x.toQM y := by simp [upd, Model.toQM]
+  rw [hm, hu]
+  cases qmUpdate x.toQM y with
+  | error e => rfl
+  | ok m => simp [exec, Except.map, setAt]
+
+/-- `QM + BQM` (`BQM.__radd__`): `qm = other.copy(); qm += from_bqm(self)` -/
+theorem exec_addPromoteRight (h : Store) (a b : Nat) (x y : Model) (ha : h[a]? = some x) (hb : h[b]? = some y)
+    (hx : x.isQM = true) (hy : y.isQM = false) :
+    (exec h (progAddPromoteRight a b h.length)).map (fun h' => h'[h.length]?) = (mAdd x y).map some := by
+  have e1 : (h ++ [x])[b]? = some y := get_old h _ b y hb
+  have e2 : (h ++ [x] ++ [y.toQM])[h.length]? = some x := by simp
+  have e3 : (h ++ [x] ++ [y.toQM])[h.length + 1]? = some y.toQM := by
+    rw [List.append_assoc]; exact get_new1 h _ _ []
+  simp only [progAddPromoteRight, exec, step, ha, e1, e2, e3]
+  have hm : mAdd x y = qmUpdate x y.toQM := by simp [mAdd, hx, hy]
+  have hu : upd x y.toQM = qmUpdate x y.toQM := by simp [upd, hx]
+  rw [hm, hu]
+  cases qmUpdate x y.toQM with
+  | error e => rfl
+  | ok m => simp [exec, Except.map, setAt]
+
+theorem exec_cons_ok (h h' : Store) (i : Instr) (is : List Instr) (hs : step h i = .ok h') : exec h (i :: is) = exec h' is := by
+  simp only [exec, hs]
+
+/-- the tail `scale(-1); update(src); scale(-1)` on a QM object at position `d` -/
+theorem exec_negUpd (h : Store) (d s : Nat) (m o : Model) (hd : h[d]? = some m) (hs : h[s]? = some o) (hq : m.isQM = true) (hne : d ≠ s) :
+    (exec h [.scale d (-1), .update d s, .scale d (-1)]).map (fun h' => h'[d]?) =
+      (match qmUpdate (m.scale (-1)) o with | .ok r => Except.ok (r.scale (-1)) | .error e => .error e).map some := by
+  have hdl := lt_of_get h d m hd
+  have e1 : (setAt h d (m.scale (-1)))[d]? = some (m.scale (-1)) := by simp [setAt, hdl]
+  have e2 : (setAt h d (m.scale (-1)))[s]? = some o := by simp only [setAt]; rw [List.getElem?_set_ne hne]; exact hs
+  simp only [exec, step, hd, e1, e2]
+  have hu : upd (m.scale (-1)) o = qmUpdate (m.scale (-1)) o := by simp [upd, Model.scale, hq]
+  rw [hu]
+  cases qmUpdate (m.scale (-1)) o with
+  | error e => rfl
+  | ok r =>
+    have e3 : (setAt (setAt h d (m.scale (-1))) d r)[d]? = some r := by simp [setAt, hdl]
+    simp [exec, step, e3, Except.map, setAt, hdl]
+
+/-- `QM - QM`: `new = self.copy(); new.scale(-1); new.update(other); new.scale(-1)` -/
+theorem exec_subSameQM (h : Store) (a b : Nat) (x y : Model) (ha : h[a]? = some x) (hb : h[b]? = some y)
+    (hx : x.isQM = true) (hy : y.isQM = true) :
+    (exec h (progSubSame a b h.length)).map (fun h' => h'[h.length]?) = (mSub x y).map some := by
+  have hbl := lt_of_get h b y hb
+  unfold progSubSame
+  rw [exec_cons_ok h (h ++ [x]) _ _ (by simp [step, ha])]
+  rw [exec_negUpd (h ++ [x]) h.length b x y (by simp) (get_old h _ b y hb) hx (by omega)]
+  simp [mSub, hx, hy]
+  rfl
+
+/-- `BQM - BQM` of the same vartype -/
+theorem exec_subSameBQM (h : Store) (a b : Nat) (x y : Model) (ha : h[a]? = some x) (hb : h[b]? = some y)
+    (hx : x.isQM = false) (hy : y.isQM = false) (hd : bqmDiffer x y = false) :
+    (exec h (progSubSame a b h.length)).map (fun h' => h'[h.length]?) = (mSub x y).map some := by
+  have hbl := lt_of_get h b y hb
+  have e0 : (h ++ [x])[h.length]? = some x := by simp
+  have e1 : (setAt (h ++ [x]) h.length (x.scale (-1)))[h.length]? = some (x.scale (-1)) := by simp [setAt]
+  have e2 : (setAt (h ++ [x]) h.length (x.scale (-1)))[b]? = some y := by
+    simp only [setAt]; rw [List.getElem?_set_ne (by omega)]; exact get_old h _ b y hb
+  simp only [progSubSame, exec, step, ha, e0, e1, e2]
+  have hu : upd (x.scale (-1)) y = .ok (bqmUpdate (x.scale (-1)) y) := by simp [upd, Model.scale, hx]
+  rw [hu]
+  have e3 : (setAt (setAt (h ++ [x]) h.length (x.scale (-1))) h.length (bqmUpdate (x.scale (-1)) y))[h.length]? =
+      some (bqmUpdate (x.scale (-1)) y) := by simp [setAt]
+  simp only [e3]
+  simp [mSub, hx, hy, hd, Except.map, setAt]
+
+/-- `BQM - BQM` of different vartypes -/
+theorem exec_subPromoteBoth (h : Store) (a b : Nat) (x y : Model) (ha : h[a]? = some x) (hb : h[b]? = some y)
+    (hx : x.isQM = false) (hy : y.isQM = false) (hd : bqmDiffer x y = true) :
+    (exec h (progSubPromoteBoth a b h.length)).map (fun h' => h'[h.length]?) = (mSub x y).map some := by
+  have e1 : (h ++ [x.toQM])[b]? = some y := get_old h _ b y hb
+  unfold progSubPromoteBoth
+  rw [exec_cons_ok h (h ++ [x.toQM]) _ _ (by simp [step, ha])]
+  rw [exec_cons_ok (h ++ [x.toQM]) (h ++ [x.toQM] ++ [y.toQM]) _ _ (by simp [step, e1])]
+  have e2 : (h ++ [x.toQM] ++ [y.toQM])[h.length]? = some x.toQM := by simp
+  have e3 : (h ++ [x.toQM] ++ [y.toQM])[h.length + 1]? = some y.toQM := by
+    rw [List.append_assoc]; exact get_new1 h _ _ []
+  rw [exec_negUpd (h ++ [x.toQM] ++ [y.toQM]) h.length (h.length + 1) x.toQM y.toQM e2 e3 rfl (by omega)]
+  simp [mSub, hx, hy, hd]
+  rfl
+
+/-- `BQM - QM` -/
+theorem exec_subPromoteLeft (h : Store) (a b : Nat) (x y : Model) (ha : h[a]? = some x) (hb : h[b]? = some y)
+    (hx : x.isQM = false) (hy : y.isQM = true) :
+    (exec h (progSubPromoteLeft a b h.length)).map (fun h' => h'[h.length + 1]?) = (mSub x y).map some := by
+  have hbl := lt_of_get h b y hb
+  have e1 : (h ++ [x.toQM])[h.length]? = some x.toQM := by simp
+  unfold progSubPromoteLeft
+  rw [exec_cons_ok h (h ++ [x.toQM]) _ _ (by simp [step, ha])]
+  rw [exec_cons_ok (h ++ [x.toQM]) (h ++ [x.toQM] ++ [x.toQM]) _ _ (by simp [step, e1])]
+  have e2 : (h ++ [x.toQM] ++ [x.toQM])[h.length + 1]? = some x.toQM := by
+    rw [List.append_assoc]; exact get_new1 h _ _ []
+  have e3 : (h ++ [x.toQM] ++ [x.toQM])[b]? = some y := by rw [List.append_assoc]; exact get_old h _ b y hb
+  rw [exec_negUpd (h ++ [x.toQM] ++ [x.toQM]) (h.length + 1) b x.toQM y e2 e3 rfl (by omega)]
+  simp [mSub, hx, hy]
+  rfl
+
+/-- `QM - BQM` (`BQM.__rsub__`): `other - from_bqm(self)` -/
+theorem exec_subPromoteRight (h : Store) (a b : Nat) (x y : Model) (ha : h[a]? = some x) (hb : h[b]? = some y)
+    (hx : x.isQM = true) (hy : y.isQM = false) :
+    (exec h (progSubPromoteRight a b h.length)).map (fun h' => h'[h.length + 1]?) = (mSub x y).map some := by
+  have hal := lt_of_get h a x ha
+  have e1 : (h ++ [y.toQM])[a]? = some x := get_old h _ a x ha
+  unfold progSubPromoteRight
+  rw [exec_cons_ok h (h ++ [y.toQM]) _ _ (by simp [step, hb])]
+  rw [exec_cons_ok (h ++ [y.toQM]) (h ++ [y.toQM] ++ [x]) _ _ (by simp [step, e1])]
+  have e2 : (h ++ [y.toQM] ++ [x])[h.length + 1]? = some x := by
+    rw [List.append_assoc]; exact get_new1 h _ _ []
+  have e3 : (h ++ [y.toQM] ++ [x])[h.length]? = some y.toQM := by simp
+  rw [exec_negUpd (h ++ [y.toQM] ++ [x]) (h.length + 1) h.length x y.toQM e2 e3 hx (by omega)]
+  simp [mSub, hx, hy]
+  rfl
+
+/-- `BQM * QM`: `qm = from_bqm(self); qm *= other` -/
+theorem exec_mulPromoteLeft (h : Store) (a b : Nat) (x y : Model) (ha : h[a]? = some x) (hb : h[b]? = some y)
+    (hx : x.isQM = false) (hy : y.isQM = true) :
+    (exec h (progMulPromoteLeft a b h.length)).map (fun h' => h'[h.length + 1]?) = (mMul x y).map some := by
+  have e1 : (h ++ [x.toQM])[h.length]? = some x.toQM := by simp
+  have e2 : (h ++ [x.toQM])[b]? = some y := get_old h _ b y hb
+  simp only [progMulPromoteLeft, exec, step, ha, e1, e2]
+  have hm : mMul x y = qmMul x.toQM y := by simp [mMul, hx, hy]
+  have hu : mulObj x.toQM y = qmMul x.toQM y := by simp [mulObj, Model.toQM]
+  rw [hm, hu]
+  cases qmMul x.toQM y with
+  | error e => rfl
+  | ok m =>
+    simp only [exec, Except.map]
+    rw [List.append_assoc]
+    simp [get_new1]
+
+/-- `QM * BQM` (`BQM.__rmul__`): `qm = from_bqm(self); qm *= other` -/
+theorem exec_mulPromoteRight (h : Store) (a b : Nat) (x y : Model) (ha : h[a]? = some x) (hb : h[b]? = some y)
+    (hx : x.isQM = true) (hy : y.isQM = false) :
+    (exec h (progMulPromoteRight a b h.length)).map (fun h' => h'[h.length + 1]?) = (mMul x y).map some := by
+  have e1 : (h ++ [y.toQM])[h.length]? = some y.toQM := by simp
+  have e2 : (h ++ [y.toQM])[a]? = some x := get_old h _ a x ha
+  simp only [progMulPromoteRight, exec, step, hb, e1, e2]
+  have hm : mMul x y = qmMul y.toQM x := by simp [mMul, hx, hy]
+  have hu : mulObj y.toQM x = qmMul y.toQM x := by simp [mulObj, Model.toQM]
+  rw [hm, hu]
+  cases qmMul y.toQM x with
+  | error e => rfl
+  | ok m =>
+    simp only [exec, Except.map]
+    rw [List.append_assoc]
+    simp [get_new1]
+
+/-- `BQM * BQM` of different vartypes (both linear): `from_bqm(self) * other` → `BQM.__rmul__` -/
+theorem exec_mulPromoteBoth (h : Store) (a b : Nat) (x y : Model) (ha : h[a]? = some x) (hb : h[b]? = some y)
+    (hx : x.isQM = false) (hy : y.isQM = false) (hd : bqmDiffer x y = true)
+    (hl : x.isLinear = true ∧ y.isLinear = true) :
+    (exec h (progMulPromoteBoth a b h.length)).map (fun h' => h'[h.length + 2]?) = (mMul x y).map some := by
+  have e1 : (h ++ [y.toQM])[a]? = some x := get_old h _ a x ha
+  have e2 : (h ++ [y.toQM] ++ [x.toQM])[h.length]? = some y.toQM := by simp
+  have e3 : (h ++ [y.toQM] ++ [x.toQM])[h.length + 1]? = some x.toQM := by
+    rw [List.append_assoc]; exact get_new1 h _ _ []
+  simp only [progMulPromoteBoth, exec, step, hb, e1, e2, e3]
+  have hm : mMul x y = qmMul y.toQM x.toQM := by simp [mMul, hx, hy, hd, hl]
+  have hu : mulObj y.toQM x.toQM = qmMul y.toQM x.toQM := by simp [mulObj, Model.toQM]
+  rw [hm, hu]
+  cases qmMul y.toQM x.toQM with
+  | error e => rfl
+  | ok m =>
+    simp only [exec, Except.map]
+    have : (h ++ [y.toQM] ++ [x.toQM] ++ [m])[h.length + 2]? = some m := by
+      rw [List.getElem?_append_right (by simp)]; simp
+    rw [this]
+
 end Sym
